@@ -1,0 +1,109 @@
+// +build verif
+
+package index
+
+// Read-only hooks for the verification harness (/verif). Compiled only with -tags verif.
+
+import (
+	"sort"
+	"sync/atomic"
+
+	"github.com/marekgalovic/anndb/math"
+	"github.com/marekgalovic/anndb/utils"
+	uuid "github.com/satori/go.uuid"
+)
+
+type VerifEdge struct {
+	Id      uuid.UUID
+	Deleted bool
+	Score   float32
+}
+
+type VerifVertex struct {
+	Id       uuid.UUID
+	Shard    int
+	Level    int
+	Vector   math.Vector
+	Metadata Metadata
+	Deleted  bool
+	Edges    [][]VerifEdge // per level, sorted by (id, deleted, score bits)
+}
+
+type VerifDump struct {
+	HasEntry     bool
+	EntryId      uuid.UUID
+	EntryDeleted bool
+	EntryStored  bool // the entry point is the object stored under its id
+	Len          uint64
+	BytesSize    uint64
+	Vertices     []VerifVertex // the stored (live) vertices, sorted by id
+}
+
+func verifVertex(v *hnswVertex, shard int) VerifVertex {
+	out := VerifVertex{Id: v.id, Shard: shard, Level: v.level, Vector: v.vector, Metadata: v.metadata, Deleted: v.isDeleted()}
+	out.Edges = make([][]VerifEdge, len(v.edges))
+	for l := range v.edges {
+		es := make([]VerifEdge, 0, len(v.edges[l]))
+		for n, d := range v.edges[l] {
+			es = append(es, VerifEdge{n.id, n.isDeleted(), d})
+		}
+		sort.Slice(es, func(i, j int) bool {
+			if c := compareIds(es[i].Id, es[j].Id); c != 0 {
+				return c < 0
+			}
+			if es[i].Deleted != es[j].Deleted {
+				return !es[i].Deleted
+			}
+			return es[i].Score < es[j].Score
+		})
+		out.Edges[l] = es
+	}
+	return out
+}
+
+func compareIds(a, b uuid.UUID) int {
+	for i := range a {
+		if a[i] != b[i] {
+			if a[i] < b[i] {
+				return -1
+			}
+			return 1
+		}
+	}
+	return 0
+}
+
+// VerifDump returns the whole observable state of the index. Not safe for concurrent use.
+func (this *Hnsw) VerifDump() VerifDump {
+	d := VerifDump{Len: atomic.LoadUint64(&this.len), BytesSize: atomic.LoadUint64(&this.bytesSize)}
+	if ep := (*hnswVertex)(atomic.LoadPointer(&this.entrypoint)); ep != nil {
+		d.HasEntry = true
+		d.EntryId = ep.id
+		d.EntryDeleted = ep.isDeleted()
+		m, _ := this.getVerticesShard(ep.id)
+		d.EntryStored = m[ep.id] == ep
+	}
+	for i, m := range this.vertices {
+		for _, v := range m {
+			d.Vertices = append(d.Vertices, verifVertex(v, i))
+		}
+	}
+	sort.Slice(d.Vertices, func(i, j int) bool { return compareIds(d.Vertices[i].Id, d.Vertices[j].Id) < 0 })
+	return d
+}
+
+// VerifShardOf is the shard an id is stored in.
+func VerifShardOf(id uuid.UUID) int {
+	return int(utils.UuidMod(id, uint64(VERTICES_MAP_SHARD_COUNT)))
+}
+
+// VerifConfig exposes the effective configuration by value.
+func (this *Hnsw) VerifConfig() (m, mMax, mMax0, ef, efConstruction int, heuristic, extend, keepPruned bool) {
+	c := this.config
+	return c.m, c.mMax, c.mMax0, c.ef, c.efConstruction, c.searchAlgorithm == HnswSearchHeuristic, c.heuristicExtendCandidates, c.heuristicKeepPruned
+}
+
+// VerifVertexBytes is what storeVertex adds to the byte counter for such an item.
+func VerifVertexBytes(vector math.Vector, metadata Metadata) uint64 {
+	return newHnswVertex(uuid.Nil, vector, metadata, 0).bytesSize()
+}
